@@ -16,7 +16,8 @@ class C33(Check):
     prop_file = "theories/Properties/Properties_C33.v"
     theorems = ("C33_mutual_exclusion", "C33_log_exclusion", "C33_wout_single_writer", "C33_quiescent_counters",
                 "C33_enabled_meaning", "C33_deadlock_free", "C33_enabled_stable", "C33_fair_completion",
-                "C33_reader_bypass", "C33_writer_bypass", "C33_writer_fifo_partial")
+                "C33_reader_bypass", "C33_writer_bypass", "C33_writer_fifo", "C33_writer_reader_phases_refuted",
+                "C33_writer_bounded_wait")
     comp = "rwlock"
     extract_file = "theories/Extract/Extract_RWLock.v"
     extracted = ("rwlock",)
@@ -32,9 +33,11 @@ class C33(Check):
                   "that run each thread at least once completes every program (starvation freedom for finite programs); the "
                   "counters at quiescence equal the cycle counts. Bounded bypass: a waiting reader is overtaken by at most one "
                   "writer; a writer whose bits are set is overtaken by no writer and only by readers that were waiting on the "
-                  "previous writer's bits, at most those counted in its ticket; writers enter in ticket order. Partial only for "
-                  "one part of phase-fairness: the number of READERS overtaking a writer that still waits for its ticket is not "
-                  "bounded by a theorem (statement kept in Properties_C33.v). Tie: the real functions run in ucontext "
+                  "previous writer's bits, at most those counted in its ticket; writers enter in ticket order. The "
+                  "schedule-independent bound 'k+1 reader phases of already-waiting readers' for a writer queued behind k tickets "
+                  "is REFUTED by a witness (readers arriving while the served writer has not yet set its bits enter freely; replayed "
+                  "on the real code, it is the published algorithm's behaviour); what holds instead is proved: such a writer is "
+                  "inside after (3N+8)(k+1) rounds that schedule every thread once, whatever the others run. Tie: the real functions run in ucontext "
                   "coroutines under the same schedules (yield before each atomic, one wait-loop read per step, a yield between "
                   "the two updates of wrunlock); enter/exit log, final words, per-thread step and spin counts are diffed "
                   "against the extracted model.")
@@ -46,10 +49,11 @@ class C33(Check):
                   "threads. Threads do not nest lock cycles (a nested rdlock can deadlock by design of a phase-fair lock).")
     technique = ("Coq inductive-invariant proof over all schedules and thread counts + controlled-schedule differential run "
                  "(ucontext coroutines, macro-interposed atomics and wait loops) of the real parsec_rwlock.c")
-    rule = ("1..6 threads with random R/W cycle programs, lock pre-aged to arbitrary counter values (including the 2^24/2^32 "
+    rule = ("1..6 threads (up to 32 in the many-readers pattern) with random R/W cycle programs, lock pre-aged to arbitrary counter values (including the 2^24/2^32 "
             "wrap-arounds); schedules: sequential, round-robin, bursts, random, and directed prefixes (writer arriving while "
             "readers are inside, readers arriving while a writer waits, back-to-back writers, reader that misses the zero "
-            "window between two writers), lock ages placed so that the readers inside / the queued writers straddle the int32 sign bit (a = 2^23-k, b = 2^31-k) or the 2^32 wrap; plus all schedules of length 8 for two single-cycle threads on a fresh lock and on both boundaries; non-trivial = at least "
+            "window between two writers, all step orders around a phase flip with a third writer arriving, 6..28 readers "
+            "inside across a byte carry / sign bit / wrap of the reader count, queued tickets across 2^31 / 2^32), lock ages placed so that the readers inside / the queued writers straddle the int32 sign bit (a = 2^23-k, b = 2^31-k) or the 2^32 wrap; plus all schedules of length 8 for two single-cycle threads on a fresh lock and on both boundaries; non-trivial = at least "
             "two non-empty programs, one of them with a write cycle; distinct = case text")
     trusted = ("cosched.h/interpose.h scheduling points and the nanosleep / fetch_and macro redefinitions in harness/h_rwlock.c",)
     assumptions = ("sequentially consistent atomics and volatile accesses (x86-64 __sync builtins are full barriers)",
@@ -75,7 +79,7 @@ class C33(Check):
     def _straddle(self, r, n):
         """lock age such that the next n read entries (resp. write tickets) straddle a sign / wrap boundary"""
         a = r.pick([1 << 23, 1 << 24]) - r.range(1, max(1, n))
-        b = r.pick([1 << 31, M32]) - r.range(1, 3)
+        b = r.pick([1 << 31, M32]) - r.range(1, max(3, n))
         return a, b
 
     def _prog(self, r, maxlen, kind=None):
@@ -113,7 +117,38 @@ class C33(Check):
     def _directed(self, r, maxlen):
         """schedule prefixes that steer the threads into the interesting regions of the code"""
         a, b = self._age(r)
-        kind = r.below(4)
+        kind = r.below(6)
+        if kind == 4:
+            # a phase flips (writer A leaves, writer B takes over) while blocked readers look again and
+            # a third writer / a new reader arrives exactly then: all orders of the steps around the flip
+            progs = ["W" + self._prog(r, maxlen - 1), "W" + self._prog(r, maxlen - 1),
+                     "R" + self._prog(r, maxlen - 1), "R" + self._prog(r, maxlen - 1),
+                     r.pick("RW") + self._prog(r, maxlen - 1)]
+            s = [0, 0, 0, 1, 1, 2, 2, 3, 3]
+            s += r.shuffle([0] * 4 + [1] * 4 + [2] * 2 + [3] * 2 + [4] * 3)
+            if r.chance(1, 2):
+                a, b = self._straddle(r, 3)
+            nt = len(progs)
+            s += self._tail(r, nt, r.range(0, 4 * nt))
+            return self._fmt(a, b, progs, s)
+        if kind == 5:
+            # many readers inside when the writer arrives: the reader count in rin/rout crosses a byte
+            # carry (2^8, 2^16 entries), the sign bit (2^23) or the wrap (2^24) while they are inside
+            nr = r.range(6, 28)          # at most 32 threads in all (COS_MAX)
+            nl = r.range(0, 2)
+            progs = ["R" * r.range(1, 2) for _ in range(nr)] + ["W" + self._prog(r, 1)] + ["R"] * nl
+            if r.chance(1, 3):
+                progs.append("W")
+            a = r.pick([1 << 8, 1 << 16, 1 << 23, 1 << 24]) - r.range(1, nr)
+            b = r.pick([0, M32 - 1, (1 << 31) - 1, r.below(M32)])
+            s = []
+            for t in r.shuffle(range(nr)):
+                s += [t, t]
+            s += [nr, nr, nr]
+            for t in range(nr + 1, len(progs)):
+                s += [t, t]
+            s += [r.below(len(progs)) for _ in range(r.range(0, 3 * len(progs)))]
+            return self._fmt(a, b, progs, s)
         if kind == 0:
             # readers inside, a writer arrives (sets its bits, waits), more readers arrive and are held back
             nr, nl = r.range(1, 3), r.range(0, 2)
@@ -150,8 +185,8 @@ class C33(Check):
             order = r.shuffle(range(nw))
             s = order + order
             if r.chance(1, 2):
-                a, b = self._straddle(r, 2)
-        else:
+                a, b = self._straddle(r, nw)      # the queued tickets straddle the 2^31 / 2^32 boundary of win/wout
+        elif kind == 3:
             # reader blocked by writer A misses the window: A leaves and writer B sets its bits
             # (other phase) before the reader looks again
             progs = ["W" + self._prog(r, maxlen - 1), "R" + self._prog(r, maxlen - 1), "W" + self._prog(r, maxlen - 1)]
@@ -163,6 +198,8 @@ class C33(Check):
             if r.chance(1, 2):
                 s += [2, 2]      # B keeps polling rout
             s += [1]
+        else:
+            raise AssertionError(kind)
         nt = len(progs)
         s += self._tail(r, nt, r.range(0, 6 * nt))
         return self._fmt(a, b, progs, s)
@@ -231,6 +268,8 @@ class C33(Check):
             a, b, progs, sched = _parse_case(case)
         except Exception:
             return None     # malformed case text: nothing to decide
+        if obs.strip() == "<bad case>":
+            return None     # refused by the harness (more than 32 threads / malformed): nothing ran
         if "<deadlock>" in obs:
             return "deadlock: threads did not finish their lock cycles: " + obs[:120]
         if not obs.startswith("log:"):
